@@ -95,6 +95,8 @@ pub struct CaseOut {
     pub sample: Option<J>,
     /// free-form counters
     pub counters: Vec<(String, u64)>,
+    /// always report the sample (small families)
+    pub keep_sample: bool,
 }
 
 impl CaseOut {
@@ -113,6 +115,11 @@ impl CaseOut {
 pub trait Family {
     fn n_cases(&self, args: &Args) -> u64;
     fn run(&mut self, k: u64, rng: &mut Rng, args: &Args) -> CaseOut;
+    /// Describe case `k` without executing anything risky (used by the driver
+    /// after a worker died in that case).
+    fn describe(&mut self, _k: u64, _rng: &mut Rng, _args: &Args) -> Option<J> {
+        None
+    }
 }
 
 fn emit(j: &J) {
@@ -142,8 +149,14 @@ pub fn run_family(fam: &mut dyn Family, args: &Args) {
             k += 1;
             continue;
         }
+        let stream = format!("{}{}", args.family, args.opt("stream").unwrap_or(""));
+        let mut rng = Rng::for_case(args.seed, &stream, k);
+        if args.flag("describe") {
+            let d = fam.describe(k, &mut rng, args);
+            emit(&J::obj().set("t", "describe").set("k", k).set("case_data", d.unwrap_or(J::Null)));
+            break;
+        }
         emit(&J::obj().set("t", "begin").set("k", k));
-        let mut rng = Rng::for_case(args.seed, &args.family, k);
         let out = fam.run(k, &mut rng, args);
         for t in &out.tags {
             *tagc.entry(t.clone()).or_insert(0) += 1;
@@ -174,7 +187,7 @@ pub fn run_family(fam: &mut dyn Family, args: &Args) {
         }
         // samples: always for violations, otherwise for the first few cases of a shard
         if let Some(s) = out.sample
-            && (!out.viols.is_empty() || args.only.is_some() || k < args.shard_n * 2)
+            && (!out.viols.is_empty() || out.keep_sample || args.only.is_some() || k < args.shard_n * 2)
         {
             j.put("sample", s);
         }
